@@ -327,6 +327,10 @@ theorem top_equiv_eq : bodiesEquiv (getterCtx (Base.new 127))
 example : bodiesEquiv (getterCtx (Base.new 127))
     (.bin .eqq (.bin .and (.bin .shr (.var .raw) (usz 126)) (one .u128)) (.lit .u128 0))
     (.bin .ne (.bin .and (.var .raw) (.bin .shl (one .u128) (usz 126))) (.lit .u128 0)) = false := by decide +kernel
+/-- … and written `(raw & (1 << 126)) > 0`, i.e. `0 < raw & (1 << 126)` -/
+theorem top_equiv_gt : bodiesEquiv (getterCtx (Base.new 127))
+    (.bin .lt (.lit .u128 0) (.bin .and (.var .raw) (.bin .shl (one .u128) (usz 126))))
+    (.bin .ne (.bin .and (.var .raw) (.bin .shl (one .u128) (usz 126))) (.lit .u128 0)) = true := by decide +kernel
 /-- `raw ^ raw` is the constant 0, `raw ^ value` has no normal form -/
 example : nf { rawTy := .u8 } ({ rawTy := .u8 } : Ctx).init (.bin .bxor (.var .raw) (.var .raw))
     = some (.ok (.int .u8 (zeros 8))) := by decide +kernel
